@@ -821,14 +821,8 @@ def r5(ctx):
     rp = [x for x in muts if x[1]["f"]["name"] == "remove_prefix_filtered"]
     ctx.check(len(ep) == 1 and len(rp) == 1 and put.dominates(rp[0][0], ep[0][0]), "C02.R5", PUT, "prune-then-write",
               "entry_put is dominated by remove_prefix_filtered (the new entry is never subject to its own pruning)", ep[0][1]["sp"] if ep else put.sp)
-    # Inserted{removed} carries the count returned by remove_prefix_filtered
-    ins = [s for _, _, s in put.statements() if s["k"] == "assign" and s["r"][0] == "agg" and s["r"][1][0] == "adt" and s["r"][1][2] == "Inserted"]
-    ok = False
-    if len(ins) == 1 and rp:
-        o = trace(put, ins[0]["r"][2][0])
-        ok = any(x.kind == "call" and x.data is rp[0][1] for x in o)
-    ctx.check(ok, "C02.R5", PUT, "removed-count-reported", "Inserted.removed is the value returned by remove_prefix_filtered", ins[0]["sp"] if ins else put.sp)
-    ctx.floor("C02.R5", 4)
+    # (that Inserted{removed} carries the prune's count is decided by R1's evaluated rows: `Ok(Inserted(removed))`)
+    ctx.floor("C02.R5", 3)
 
 
 def r6(ctx):
